@@ -9,11 +9,8 @@
 #include <memory>
 #include <thread>
 #include <vector>
-#include "fastscapelib/utils/thread_pool.hpp"
-#include "src.hpp"
+#include "steer.hpp"
 #include "harness.hpp"
-
-namespace fsv = fastscapelib::verif;
 
 #if defined(__has_feature)
 #if __has_feature(thread_sanitizer)
@@ -24,179 +21,10 @@ namespace fsv = fastscapelib::verif;
 #define C11_TSAN 0
 #endif
 
+using namespace vs;
+
 namespace
 {
-    constexpr int NPOINTS = 19;
-    constexpr int NTHREADS = 18;  // caller = 0, workers 1..17
-
-    struct Rule
-    {
-        int point;
-        int tid;  // -1 any
-        unsigned occurrence;  // k-th time (1-based), 0 = every time
-        int action;  // 0 yield, 1 sleep, 2 hold-until
-        unsigned amount;
-        int until_tid, until_point;
-        std::atomic<unsigned> fired{ 0 };
-        Rule() = default;
-        Rule(const Rule& o)
-            : point(o.point), tid(o.tid), occurrence(o.occurrence), action(o.action), amount(o.amount), until_tid(o.until_tid), until_point(o.until_point), fired(o.fired.load())
-        {
-        }
-    };
-
-    struct Tracker
-    {
-        std::atomic<unsigned long> seq{ 0 };
-        std::atomic<int> last_point[NTHREADS];
-        std::atomic<unsigned long> last_seq[NTHREADS];
-        std::atomic<unsigned> count[NTHREADS][NPOINTS];
-        std::vector<Rule> rules;
-        std::atomic<bool> steering{ false };
-        // caller phase for the monitor
-        std::atomic<long long> call_started_ms{ 0 };  // 0 = not inside a pool call
-        std::atomic<int> call_kind{ 0 };
-        void reset()
-        {
-            seq = 0;
-            for (int t = 0; t < NTHREADS; ++t)
-            {
-                last_point[t] = 0;
-                last_seq[t] = 0;
-                for (int p = 0; p < NPOINTS; ++p)
-                    count[t][p] = 0;
-            }
-            rules.clear();
-            call_started_ms = 0;
-        }
-    };
-    Tracker g_tr;
-
-    long long now_ms()
-    {
-        return std::chrono::duration_cast<std::chrono::milliseconds>(std::chrono::steady_clock::now().time_since_epoch()).count();
-    }
-
-    const char* point_name(int p)
-    {
-        static const char* n[] = { "-", "pausejob_before_lock", "pausejob_after_lock", "pausejob_after_inc(before cv.wait)", "pausejob_after_wait", "runtasks_before_store", "runtasks_after_store", "pause_spin", "resume_before_notify", "resume_after_notify", "wait_spin", "worker_loop", "worker_before_job", "worker_after_job", "worker_after_clear", "stop_before_join", "worker_exit", "wait_done", "pause_done" };
-        return p >= 0 && p < NPOINTS ? n[p] : "?";
-    }
-
-    void hook(int point, std::size_t worker, const void*)
-    {
-        int tid = worker == static_cast<std::size_t>(-1) ? 0 : static_cast<int>(worker) + 1;
-        if (tid >= NTHREADS || point >= NPOINTS)
-            return;
-        unsigned long s = g_tr.seq.fetch_add(1, std::memory_order_relaxed);
-        g_tr.last_point[tid].store(point, std::memory_order_relaxed);
-        g_tr.last_seq[tid].store(s, std::memory_order_relaxed);
-        unsigned k = g_tr.count[tid][point].fetch_add(1, std::memory_order_relaxed) + 1;
-        if (!g_tr.steering.load(std::memory_order_relaxed))
-            return;
-        for (auto& r : g_tr.rules)
-        {
-            if (r.point != point || (r.tid >= 0 && r.tid != tid) || (r.occurrence && r.occurrence != k))
-                continue;
-            r.fired.fetch_add(1, std::memory_order_relaxed);
-            if (r.action == 0)
-            {
-                for (unsigned i = 0; i < r.amount; ++i)
-                    std::this_thread::yield();
-            }
-            else if (r.action == 1)
-            {
-                std::this_thread::sleep_for(std::chrono::microseconds(r.amount));
-            }
-            else
-            {
-                // hold until thread `until_tid` has passed point `until_point` once more
-                // (an order constraint, bounded by 200 ms so that it can never block forever)
-                unsigned base = g_tr.count[r.until_tid][r.until_point].load(std::memory_order_relaxed);
-                long long t0 = now_ms();
-                while (g_tr.count[r.until_tid][r.until_point].load(std::memory_order_relaxed) == base && now_ms() - t0 < 200)
-                    std::this_thread::yield();
-            }
-        }
-    }
-
-    // monitor: termination as a logical predicate
-    std::atomic<bool> g_monitor_started{ false };
-    void monitor_main()
-    {
-        for (;;)
-        {
-            std::this_thread::sleep_for(std::chrono::milliseconds(100));
-            long long t0 = g_tr.call_started_ms.load(std::memory_order_relaxed);
-            if (t0 == 0)
-                continue;
-            long long dt = now_ms() - t0;
-            if (dt < 10000)
-                continue;
-            int cp = g_tr.last_point[0].load(std::memory_order_relaxed);
-            int waiting_workers = 0, first_waiting = -1;
-            for (int t = 1; t < NTHREADS; ++t)
-                if (g_tr.last_point[t].load(std::memory_order_relaxed) == fsv::pausejob_after_inc)
-                {
-                    ++waiting_workers;
-                    if (first_waiting < 0)
-                        first_waiting = t - 1;
-                }
-            bool caller_spins = cp == fsv::wait_spin || cp == fsv::pause_spin;
-            // provably stuck: the caller (the only thread that ever notifies) spins in wait()
-            // after its notify_all, while a worker with its job flag still set sits in cv.wait
-            // (wait() is only entered when every worker has been resumed: a worker that is still
-            // inside the condition-variable wait at that time has missed the notification)
-            bool stuck = cp == fsv::wait_spin && waiting_workers > 0;
-            // observe whether anything else than spin iterations still changes
-            unsigned long snap[NTHREADS];
-            for (int t = 1; t < NTHREADS; ++t)
-                snap[t] = g_tr.last_seq[t].load(std::memory_order_relaxed);
-            std::this_thread::sleep_for(std::chrono::milliseconds(500));
-            bool workers_silent = true;
-            for (int t = 1; t < NTHREADS; ++t)
-                if (g_tr.last_point[t].load(std::memory_order_relaxed) == fsv::pausejob_after_inc && snap[t] != g_tr.last_seq[t].load(std::memory_order_relaxed))
-                    workers_silent = false;
-            char buf[600];
-            if (stuck && workers_silent && caller_spins)
-            {
-                int len = snprintf(buf, sizeof buf,
-                                   "\nPOOL-STUCK: caller has been inside one pool call for %lld ms and spins in wait(); worker %d (and %d in total) "
-                                   "is blocked in the condition-variable wait of its pause job with its job flag still set; nobody else notifies -> no progress possible (lost wake-up)\n",
-                                   dt, first_waiting, waiting_workers);
-                ssize_t w = write(2, buf, static_cast<size_t>(len));
-                (void) w;
-                _exit(88);
-            }
-            if (dt > 40000)
-            {
-                int len = snprintf(buf, sizeof buf, "\nPOOL-SLOW: caller inside one pool call (kind %d) for %lld ms (caller at %s) without a provably stuck state: inconclusive\n", g_tr.call_kind.load(), dt, point_name(cp));
-                ssize_t w = write(2, buf, static_cast<size_t>(len));
-                (void) w;
-                for (int t = 1; t < NTHREADS; ++t)
-                    if (g_tr.last_point[t].load())
-                    {
-                        len = snprintf(buf, sizeof buf, "  worker %d last at %s (event %lu)\n", t - 1, point_name(g_tr.last_point[t].load()), g_tr.last_seq[t].load());
-                        w = write(2, buf, static_cast<size_t>(len));
-                    }
-                _exit(89);
-            }
-        }
-    }
-
-    struct CallScope
-    {
-        CallScope(int kind)
-        {
-            g_tr.call_kind.store(kind, std::memory_order_relaxed);
-            g_tr.call_started_ms.store(now_ms(), std::memory_order_relaxed);
-        }
-        ~CallScope()
-        {
-            g_tr.call_started_ms.store(0, std::memory_order_relaxed);
-        }
-    };
-
     struct RunSpec
     {
         size_t first, last, min_size;
@@ -212,11 +40,7 @@ namespace
 
 static void check_case(vg::Src& s, vh::Ctx& c)
 {
-    if (!g_monitor_started.exchange(true))
-    {
-        std::thread(monitor_main).detach();
-        fsv::sched_hook().store(&hook);
-    }
+    vs::install();
     g_tr.steering = false;
     g_tr.reset();
 
@@ -256,18 +80,7 @@ static void check_case(vg::Src& s, vh::Ctx& c)
     bool classic = !C11_TSAN && s.chance(60);
     std::string plan;
     for (size_t i = 0; i < nrules; ++i)
-    {
-        Rule r;
-        r.point = static_cast<int>(s.range(1, NPOINTS - 1));
-        size_t who = s.weighted({ 100, 60, 96 });
-        r.tid = who == 0 ? -1 : (who == 1 ? 0 : static_cast<int>(s.range(1, 8)));
-        r.occurrence = static_cast<unsigned>(s.weighted({ 120, 60, 40, 36 }));
-        r.action = static_cast<int>(s.weighted({ 120, 60, 76 }));
-        r.amount = r.action == 0 ? static_cast<unsigned>(s.range(1, 200)) : static_cast<unsigned>(s.range(1, 40)) * 50;
-        r.until_tid = s.coin() ? 0 : static_cast<int>(s.range(1, 8));
-        r.until_point = static_cast<int>(s.range(1, NPOINTS - 1));
-        g_tr.rules.push_back(r);
-    }
+        g_tr.rules.push_back(gen_rule(s, true));
     if (classic)
     {
         // the order constraint that exposes a notify issued before the wait: a worker holds
@@ -283,7 +96,7 @@ static void check_case(vg::Src& s, vh::Ctx& c)
         g_tr.rules.push_back(r);
     }
     for (auto& r : g_tr.rules)
-        plan += std::string("[") + point_name(r.point) + " tid=" + std::to_string(r.tid) + " occ=" + std::to_string(r.occurrence) + (r.action == 0 ? " yield " + std::to_string(r.amount) : r.action == 1 ? " sleep " + std::to_string(r.amount) + "us" : " hold-until tid" + std::to_string(r.until_tid) + "@" + point_name(r.until_point)) + "]";
+        plan += describe_rule(r);
     std::string hist = "pool(" + std::to_string(size0) + ")";
     for (auto& se : sessions)
     {
